@@ -236,7 +236,10 @@ def check_history(H, case):
     # priority: never take a lower-priority message while a higher-priority one is queued
     seq = []
     for serial in pops:
-        for (t_pop, typ), (t_push, _) in zip(sorted(pops[serial]), sorted(pushes.get(serial, []))):
+        if serial not in info:
+            continue
+        typ = info[serial][2]          # the type declared by the poster, never the queue's key
+        for (t_pop, _k), (t_push, _) in zip(sorted(pops[serial]), sorted(pushes.get(serial, []))):
             seq.append((t_push, t_pop, typ, serial))
     for (pu_i, po_i, ty_i, s_i) in seq:
         for (pu_j, po_j, ty_j, s_j) in seq:
